@@ -150,6 +150,38 @@ def dispatch(P, chk):
             for labs in ops:
                 for lab in labs:
                     found.setdefault(lab, set()).add((meth, okops))
+    # the operation picked first as a function value, applied afterwards: `let f = match op { Add => check_add, .. }; f(l, r)`
+    indirect_ok = set()
+    for bb, t in b.calls():
+        f = t["f"]
+        if f.get("def") is not None or not isinstance(f.get("indirect"), dict) or len(t["args"]) != 2:
+            continue
+        defs = q.phi_defs(b, f["indirect"])
+        allfn = bool(defs)
+        for dbb, op_ in defs:
+            fnname = None
+            if op_ is not None and op_.get("k") == "const" and op_.get("fn"):
+                fnname = norm(op_.get("fn_resolved") or op_["fn"])
+            elif op_ is not None:
+                rs = prov(b, op_)
+                if len(rs) == 1 and next(iter(rs)).kind == "fn":
+                    fnname = next(iter(rs)).name
+            if fnname is None or not fnname.startswith(EV + "::check_") or dbb is None:
+                allfn = False
+                continue
+            meth = fnname.rsplit("::", 1)[-1]
+            ops = [labs for roots, labs in q.variant_guards(b, dbb) if any(r.kind == "param" and "op" in r.fields for r in roots)]
+
+            def from_eval2(o, field):
+                rs = prov(b, o)
+                return bool(rs) and all(r.kind == "call" and r.name.endswith("eval_visit") and r.site is not None and
+                                        q.all_roots(b, b.term(r.site)["args"][0], lambda x: x.kind == "param" and field in x.fields) for r in rs)
+            okops = from_eval2(t["args"][0], "lhs") and from_eval2(t["args"][1], "rhs")
+            for labs in ops:
+                for lab in labs:
+                    found.setdefault(lab, set()).add((meth, okops))
+        if allfn:
+            indirect_ok.add(bb)
     for op, meth in want.items():
         got = found.get(op, set())
         chk.require(got == {(meth, True)}, R_DISP, "BinaryOpExpr::eval_visit|%s" % op, b.loc(),
@@ -159,6 +191,8 @@ def dispatch(P, chk):
     extra = []
     for bb, v, rv in q.ok_err_assignments(b):
         if v.startswith("call:") and (EV + "::check_" in v or v.endswith("from_residual")):
+            continue
+        if v.startswith("call:") and bb in indirect_ok:
             continue
         extra.append("%s at %s" % (v, b.loc(bb)))
     chk.require(not extra, R_DISP, "BinaryOpExpr::eval_visit|returns only check_* results", b.loc(),
@@ -172,6 +206,15 @@ def dispatch(P, chk):
     okn = len(neg) == 1 and q.all_roots(u, neg[0][1]["args"][0],
                                         lambda r: r.kind == "call" and r.name.endswith("eval_visit"))
     okn = okn and q.every_return_passes(u, [neg[0][0]] + [bb for bb, t in u.calls() if callee_def(t) == "std::ops::FromResidual::from_residual"]) if neg else False
+    if not okn:
+        # eval(expr).map(Evaluated::negate): the error passes through unchanged, a value is negated
+        for bb, t in u.calls():
+            if callee_def(t) == "std::result::Result::map" and len(t["args"]) == 2 and t["dest"]["l"] == 0 and not t["dest"]["p"]:
+                fn_ = [r for r in prov(u, t["args"][1])]
+                isneg = len(fn_) == 1 and fn_[0].kind == "fn" and fn_[0].name == EV + "::negate"
+                src = q.all_roots(u, t["args"][0], lambda r: r.kind == "call" and r.name.endswith("eval_visit"))
+                if isneg and src and q.every_return_passes(u, [bb]):
+                    okn = True
     chk.require(okn, R_DISP, "UnaryOpExpr::eval_visit|Negate", u.loc(),
                 "unary minus does not return negate() of the evaluated operand", "Negate -> eval(expr)?.negate()")
     # Evaluated::negate negates both kinds
